@@ -8,13 +8,13 @@ def run(tier):
     rng = random.Random(vlib.seed())
     tables = rel.gen_tables(rep, "C01-gent")
     d1 = rel.gen_select(rep, "C01-gen1", 1)
-    nsim, k = (100, 100) if tier == "quick" else (400, 40)
+    nsim, k = (100, 100) if tier == "quick" else (150, 40)
     deep = rel.gen_select(rep, "C01-gensim", 3, simulate=nsim, seed=vlib.seed(), sample_k=k)
     deep = [p for p in deep if p["d"] >= 2]
     if tier == "thorough":
-        d2 = rel.gen_select(rep, "C01-gen2", 2, timeout=1500, sample_k=40)
+        d2 = rel.gen_select(rep, "C01-gen2", 2, timeout=1500, sample_k=300)
         deep += [p for p in d2 if p["d"] == 2]
-    ndb1, ndb2 = (5, 2) if tier == "quick" else (10, 3)
+    ndb1, ndb2 = (5, 2) if tier == "quick" else (6, 3)
     dbs = rel.pick_dbs(tables, rng, ndb1)
     run_ = rel.RelRun(rep, "select")
     styles = [None, {"quoted": True}, {"longtext": True}]
